@@ -538,6 +538,10 @@ func specCompsOK(cs []Component) bool {
 //@   ensures fresh(result) && len(result) >= 10 && len(result) < 1<<20
 //@   ensures result[0] == byte(c.eventID>>24) && result[1] == byte(c.eventID>>16) && result[2] == byte(c.eventID>>8) && result[3] == byte(c.eventID)
 //@   ensures (result[4] >= 128) == c.eventCancelIndicator && result[4]%128 == 0x7f
+//@   ensures result[len(result)-4] == byte(c.uniqueProgramId>>8) && result[len(result)-3] == byte(c.uniqueProgramId) && result[len(result)-2] == byte(c.availNum) && result[len(result)-1] == byte(c.availsExpected)
+//@   ensures c.hasDuration ==> len(result) >= 15 && result[len(result)-8] == byte(c.duration>>24) && result[len(result)-7] == byte(c.duration>>16) && result[len(result)-6] == byte(c.duration>>8) && result[len(result)-5] == byte(c.duration)
+//@   ensures c.hasDuration && c.autoReturn ==> result[len(result)-9] == 0xFE|byte(c.duration>>32)&0x01
+//@   ensures c.hasDuration && !c.autoReturn ==> result[len(result)-9] == 0x7E|byte(c.duration>>32)&0x01
 //@   modifies nothing
 //@   loop 1 (rangeindex int, componentsBytes []byte, bytes []byte)
 //@     invariant c != nil && specCompsOK(c.components) && -1 <= rangeindex && rangeindex < len(c.components)
